@@ -3,7 +3,7 @@
 
    Definitions only.  The generated file Gen/XFloatParams.v imports this file and
    defines one [lexp] per conversion site. *)
-Require Import ZArith String List.
+Require Import ZArith Bool String List.
 Local Open Scope Z_scope.
 
 (* The C arithmetic types that can occur in these expressions. *)
@@ -58,5 +58,29 @@ Section Eval.
     conv (leval text e) dest.
 End Eval.
 
-(* One conversion site. *)
-Record litsite := { ls_glue : glue; ls_dest : cty; ls_exp : lexp }.
+(* One conversion site.  [ls_guard]: the site is followed by
+     if (!isfinite(<the stored value>)) { <drop the constant, keep the run-time call> }
+   (the constant folder since /repo a5dd6ea; never at the run-time sites). *)
+Record litsite := { ls_glue : glue; ls_dest : cty; ls_exp : lexp; ls_guard : bool }.
+
+(* isfinite on a stored value: exponent field not all ones *)
+Definition cval_finite (v : cval) : bool :=
+  match v with
+  | (CFloat, b)  => negb ((b / 2 ^ 23) mod 256 =? 255)
+  | (CDouble, b) => negb ((b / 2 ^ 52) mod 2048 =? 2047)
+  end.
+
+Section Fold.
+  Variable libc  : string -> string -> Z.
+  Variable d2f   : Z -> Z.
+  Variable f2d   : Z -> Z.
+  Variable other : string -> cval.
+
+  (* what a site does with a literal: Some v = the constant v replaces the call;
+     None = the site declines and the conversion is left to the run time *)
+  Definition site_value (s : litsite) (text : string) : cval :=
+    leval_to libc d2f f2d other (ls_dest s) text (ls_exp s).
+  Definition site_fold (s : litsite) (text : string) : option cval :=
+    let v := site_value s text in
+    if ls_guard s && negb (cval_finite v) then None else Some v.
+End Fold.
